@@ -191,12 +191,23 @@ class Ctx:
         return ok
 
     # ------------------------------------------------------------------ step 3 helpers
-    def overlay_json(self):
-        """Mirror harness/overlay/** into /repo/** (virtually)."""
+    def overlay_json(self, only=None):
+        """Mirror harness/overlay/** into /repo/** (virtually).
+        Non-test files are always included.  Test files named zz_verif_<tag>_test.go are included
+        only when <tag> starts with one of `only` (default: this property's id, lower case) or
+        with "common" -- so that a harness of another property in the same package can never
+        break this property's build."""
+        if only is None:
+            only = [self.pid.lower()]
+        only = [o.lower() for o in only] + ["common"]
         rep = {}
         for root, _, files in os.walk(OVERLAY_SRC):
             for fn in files:
                 if fn.endswith(".go") or fn.endswith(".s"):
+                    if fn.endswith("_test.go"):
+                        m = re.match(r"zz_verif_([a-z0-9]+)", fn)
+                        if not m or not any(m.group(1).startswith(o) for o in only):
+                            continue
                     src = os.path.join(root, fn)
                     rel = os.path.relpath(src, OVERLAY_SRC)
                     rep[os.path.join(REPO, rel)] = src
@@ -205,11 +216,11 @@ class Ctx:
             json.dump({"Replace": rep}, f, indent=1)
         return path
 
-    def go_test_binary(self, pkg, name, module_dir="", race=False, tags="verif"):
+    def go_test_binary(self, pkg, name, module_dir="", race=False, tags="verif", only=None):
         """Compile the test binary of /repo/<module_dir>/<pkg> with overlay + tags.
         Returns path or None (build failure = broken tie)."""
         out = os.path.join(self.workdir, name)
-        cmd = ["go", "test", "-c", "-vet=off", "-tags", tags, "-overlay", self.overlay_json(), "-o", out]
+        cmd = ["go", "test", "-c", "-vet=off", "-tags", tags, "-overlay", self.overlay_json(only), "-o", out]
         if race:
             cmd.append("-race")
         cmd.append("./" + pkg)
